@@ -402,7 +402,9 @@ def pack_domain(ctx, L):
             'enums accept exactly their enumerator names and values', s)
     b = ctx.py.mod('prophy.composite').func('bytes_._bytes._check')
     s = ws(unparse(b.node))
-    L.check(inn("if not isinstance(value, bytes): raise ProphyError('not a bytes')", s) and inn("if size and len(value) > size: raise ProphyError('too long')", s),
+    raises = [r for r in b.walk() if isinstance(r, ast.Raise) and ws(unparse(r.exc)).startswith('ProphyError(')]
+    L.check(any(P.knows(b, r, 'isinstance(value, bytes)', False, ['value']) for r in raises) and
+            any(P.knows(b, r, 'size and len(value) > size', True, ['value']) for r in raises),
             'C10f.pack-domain', '_bytes._check', b.site(), 'bytes fields accept only bytes no longer than their size', s)
 
 
@@ -461,7 +463,7 @@ def check_returns(ctx, L):
         for r in [x for x in f.walk() if isinstance(x, ast.Return)]:
             for g, holds in guards:
                 n += 1
-                L.check(P.knows(f, r, g, holds, params), 'C10f.check-dominates-return', '%s|%s|%s' % (f.fq, norm_key(f, r), g), f.site(r),
+                L.check(P.knows(f, r, g, holds, params) or (not holds and P.knows_fails(f, r, g, params)), 'C10f.check-dominates-return', '%s|%s|%s' % (f.fq, norm_key(f, r), g), f.site(r),
                         'a value is returned (accepted) by %s on a path that has not passed the rejecting test `%s` (known there: %s)'
                         % (f.qualname, g, sorted(P.facts(f, r))), ws(unparse(r)))
     e = gen.func('enum_generator.add_attributes.check')
